@@ -22,7 +22,9 @@ func (x *FnCtx) step(fr *Frame, st *State, instr ssa.Instruction) {
 		case *types.Struct:
 			r := x.alloc(st.heap, tb.IntC(layoutOf(et).Size))
 			x.zeroStruct(st.heap, r, et)
-			x.zeroGhostFields(st, r)
+			for _, off := range structOffsets(et) {
+				x.zeroGhostFields(st, x.refAdd(r, off))
+			}
 			x.setReg(st, in, r)
 		case *types.Array:
 			n := int64(1)
@@ -703,4 +705,32 @@ func (x *FnCtx) zeroGhostFields(st *State, r *Term) {
 		m := x.heapGet(st.heap, name, ArraySort(IntSort, x.sortOf(t)))
 		st.heap.m[name] = x.tb.Store(m, r, x.zeroValue(t).(*Term))
 	}
+}
+
+// structOffsets: offsets of the struct itself and of every struct embedded in it (by value).
+func structOffsets(t types.Type) []int64 {
+	out := []int64{0}
+	l := layoutOf(t)
+	for i := range l.Fields {
+		fi := &l.Fields[i]
+		switch u := fi.T.Underlying().(type) {
+		case *types.Struct:
+			for _, o := range structOffsets(fi.T) {
+				if fi.Off+o != 0 {
+					out = append(out, fi.Off+o)
+				}
+			}
+		case *types.Array:
+			if isStruct(u.Elem()) && u.Len() <= 64 {
+				for k := int64(0); k < u.Len(); k++ {
+					for _, o := range structOffsets(u.Elem()) {
+						if v := fi.Off + k*slotSize(u.Elem()) + o; v != 0 {
+							out = append(out, v)
+						}
+					}
+				}
+			}
+		}
+	}
+	return out
 }
